@@ -411,6 +411,38 @@ pub fn run(opts: &Opts) -> i32 {
     for (tag, src, want) in that_probes {
         probes.push((tag.to_string(), src, want));
     }
+    // a `that` written under a lexical binder of the same name: the block-wide name is installed
+    // at the `begin`, the lexical binder met later shadows it, so the occurrences behind the `that`
+    // still refer to the lexical binder (and with another lexical name to the block-wide one)
+    for (tag, body, want) in [
+        ("that-under-same-named-fn-parameter", "(fn (zq : Int64) => let zq : Int64 = 5 that ! (process/exit) zq) (3 : Int64)", "exit:3"),
+        ("that-under-other-named-fn-parameter", "(fn (zw : Int64) => let zq : Int64 = 5 that ! (process/exit) zq) (3 : Int64)", "exit:5"),
+        ("that-under-same-named-match-binder", "let Zopt = data | +None : Unit | +Some : Int64 end that\n  let v : Zopt = +Some((3 : Int64)) in\n  match v | +None() => ! (process/exit) (0 : Int64) | +Some(zq) => let zq : Int64 = 5 that ! (process/exit) zq end", "exit:3"),
+        ("that-under-other-named-match-binder", "let Zopt = data | +None : Unit | +Some : Int64 end that\n  let v : Zopt = +Some((3 : Int64)) in\n  match v | +None() => ! (process/exit) (0 : Int64) | +Some(zw) => let zq : Int64 = 5 that ! (process/exit) zq end", "exit:5"),
+        ("that-under-same-named-do-binder", "do zq <- ret (3 : Int64);\n  let zq : Int64 = 5 that\n  ! (process/exit) zq", "exit:3"),
+        ("that-under-same-named-let-binder", "let zq = (3 : Int64) in\n  let zq : Int64 = 5 that\n  ! (process/exit) zq", "exit:3"),
+    ] {
+        probes.push((tag.to_string(), format!("{pre}begin\n  {body}\nend\n"), want));
+    }
+    // one name bound twice (or three times) in one tuple pattern: the last component of that name
+    // wins, in `in` and in `that` alike, wherever in the tuple the duplicates sit
+    for n in 2..=5usize {
+        for i in 0..n {
+            for j in i + 1..n {
+                let names: Vec<String> = (0..n).map(|k| if k == i || k == j { "zq".to_string() } else { format!("zw{k}") }).collect();
+                let values: Vec<String> = (0..n).map(|k| format!("({} : Int64)", k + 1)).collect();
+                for form in ["in", "that"] {
+                    let src = if form == "in" {
+                        format!("{pre}let ({}) = ({}) in\n! (process/exit) zq\n", names.join(", "), values.join(", "))
+                    } else {
+                        format!("{pre}begin\n  let ({}) = ({}) that\n  ! (process/exit) zq\nend\n", names.join(", "), values.join(", "))
+                    };
+                    let want: &'static str = ["exit:1", "exit:2", "exit:3", "exit:4", "exit:5"][j];
+                    probes.push((format!("same-name-twice n={n} at {i},{j} {form}"), src, want));
+                }
+            }
+        }
+    }
     // (d) a binder named like a type that its own annotation mentions: the annotation is resolved
     // outside the binder, so the program must behave as with a fresh binder name
     let ann_forms: [(&str, &str); 7] = [
